@@ -16,6 +16,7 @@ import numpy as np
 from .common import LABELS, is_nan, pyval
 from .common import Scenario
 from .c15 import Sim, build
+from .common import MAB, LP
 
 logging.disable(logging.CRITICAL)
 warnings.filterwarnings('ignore')
@@ -113,6 +114,48 @@ def books(env, spec, N, test_size, batch, ordered=True, A=2, d=1, twin=False, ab
         env.ob('twin.false', False)
 
 
+def split_fp(env, N, batch=0, twin=False):
+    """the ordered train/test split with test_size an IEEE double (not a real): the sizes the Simulator derives from
+    N * (1 - test_size), ceil(N * test_size), ... are subject to rounding, e.g. 20 * (1 - 0.8) = 3.9999999999999996.
+    Data are concrete (rewards 1..N, decisions alternating); every double in (0, 1) is covered for the given N."""
+    arms = [1, 2]
+    dec = np.asarray([arms[i % 2] for i in range(N)])
+    rew = np.asarray([float(i + 1) for i in range(N)])
+    ts = env.float64('test_size', 0.0, 1.0)
+    # nothing but test_size is symbolic (UCB1 with alpha = 1 draws no random numbers): the path conditions are pure QF_FP
+    mab = MAB()(list(arms), LP().UCB1(1.0), seed=3)
+    try:
+        sim = Sim()([('b', mab)], dec, rew, None, test_size=ts, is_ordered=True, batch_size=batch, is_quick=True, seed=11)
+        sim.run()
+    except (ZeroDivisionError, ValueError) as e:
+        # a test_size so small / large that the train or the test set is empty makes the Simulator itself raise (e.g.
+        # ZeroDivisionError for test_size = 1e-22): no report is produced, which is outside this property
+        env.note('simulator_raised', '%s: %s' % (type(e).__name__, e))
+        return
+    test = list(sim.test_indices)
+    train = [i for i in range(N) if i not in set(test)]
+    env.ob('fp.partition', sorted(test + train) == list(range(N)) and len(set(test)) == len(test))
+    env.ob('fp.ordered.last_rows', test == list(range(N - len(test), N)))
+    preds = list(sim.bandit_to_predictions['b'])
+    env.ob('fp.one_prediction_per_test_row', len(preds) == len(test))
+    for a in arms:
+        t, tr, te = sim.arm_to_stats_total[a], sim.arm_to_stats_train[a], sim.arm_to_stats_test[a]
+        env.ob('fp.additive[%s].count' % a, tr['count'] + te['count'] == t['count'])
+        env.ob('fp.additive[%s].sum' % a, abs(tr['sum'] + te['sum'] - t['sum']) < 1e-9)
+        env.ob('fp.test[%s].count' % a, te['count'] == sum(1 for i in test if dec[i] == a))
+        env.ob('fp.train[%s].count' % a, tr['count'] == sum(1 for i in train if dec[i] == a))
+        env.ob('fp.test[%s].sum' % a, abs(te['sum'] - sum(rew[i] for i in test if dec[i] == a)) < 1e-9)
+    cnt = 0
+    got = sim.bandit_to_arm_to_stats_avg['b']
+    if batch:
+        got = got.get('total', got)
+    for a in arms:
+        cnt += got[a]['count'] if a in got else 0
+    env.ob('fp.evaluated_counts_sum_to_test_rows', cnt == len(test))
+    if twin:
+        env.ob('twin.false', False)
+
+
 def books_nn(env, N, test_size, batch, A=2, twin=False):
     """online run of a Radius bandit with neighbourhood statistics (is_quick=False): the per-batch default evaluation credits
     the observed reward, else the predicted arm's statistic in the row's own neighbourhood, else its training statistic"""
@@ -202,6 +245,13 @@ def scenarios(tier):
     out.append(Scenario('radius.online.neighbourhood_stats', books_nn, dict(N=4, test_size=0.5, batch=1), weight=600, shards=8,
                         max_paths=100000, setup=dict(no_tv=True),
                         bounds=dict(bandit='UCB1 + Radius(cityblock)', rows=4, batch_size=1, is_quick=False)))
+    # test_size as an IEEE double: every double in (0, 1), per row count
+    for n in (list(range(2, 13)) + [15, 20] if q else list(range(2, 41)) + [50, 64, 90, 100]):
+        out.append(Scenario('split.float64.N%d' % n, split_fp, dict(N=n, batch=0), weight=20 + n, max_paths=5000,
+                            setup=dict(no_tv=True), bounds=dict(rows=n, test_size='every float64 in (0,1)', batch_size=0)))
+    out.append(Scenario('split.float64.N10.batch3', split_fp, dict(N=10, batch=3), weight=40, max_paths=5000,
+                        setup=dict(no_tv=True), bounds=dict(rows=10, test_size='every float64 in (0,1)', batch_size=3)))
+    out.append(Scenario('twin.split_fp', split_fp, dict(N=5, twin=True), setup=dict(no_tv=True), twin=True))
     out.append(Scenario('twin.books', books, dict(spec=('ucb1', None), N=4, test_size=0.5, batch=0, twin=True),
                         setup=dict(no_tv=True), twin=True))
     return out
